@@ -15,9 +15,11 @@ CONSTANTS
 
 -----------------------------------------------------------------------------
 (* pools *)
-N_all == { T("a"), T("Ab"), T("B2"), T("b"), T("C") }      \* strcasecmp: a < Ab < b < B2 < C ; strcmp: Ab < B2 < C < a < b
-N_4   == { T("a"), T("B2"), T("b"), T("C") }
-N_3   == { T("a"), T("B2"), T("b") }
+\* strcasecmp (letters folded to LOWER case): a < a_ < Ab < b < B2 < C ; strcmp: Ab < B2 < C < a < a_ < b ; folded to UPPER
+\* case instead ('_' = 95 lies between 'Z' and 'a'): a < Ab < a_ < b < B2 < C
+N_all == { T("a"), T("a_"), T("Ab"), T("B2"), T("b"), T("C") }
+N_4   == { T("a_"), T("Ab"), T("B2"), T("b") }
+N_3   == { T("a_"), T("Ab"), T("b") }
 N_1   == { T("B2") }
 
 None == << >>
